@@ -247,6 +247,7 @@ def job_qr(cfg):
                     routes.append(("_orthogonalize:" + pc,) + lib_qr(mode, Wa, Wb, "_orthogonalize:" + pc))
             Ra = None
             qr_ok = True
+            res.add(states=int(ok.sum()))
             for (via, qa, qb, f_a, f_b) in routes:
                 site = {"linalg": "qr_vmap" if mode == "r" else "qr_vmap_uhf"}.get(via, via.split(":")[0] + "_walkers")
                 for spin, W_, Q_, f_ in (("up", Wa, qa, f_a), ("dn", Wb, qb, f_b)):
@@ -256,18 +257,20 @@ def job_qr(cfg):
                     errs, R = qr_identities(W_, Q_, f_ if have_f else np.ones(len(W_)))
                     if via == "linalg" and spin == "up":
                         Ra = R
-                    res.add(states=int(ok.sum()), transitions=int(ok.sum()), evaluations=int(ok.sum()) * len(errs), traces=1)
+                    res.add(transitions=int(ok.sum()), evaluations=int(ok.sum()) * len(errs), traces=1)
                     for name, e in errs.items():
                         if name == "factor" and not have_f:
                             continue
-                        bad = gridmc.first_bad(np.where(ok, e, 0.0), TOL_ALG if name != "factor" else TOL_OVLP)
+                        tol = TOL_ALG if name != "factor" else TOL_OVLP
+                        bad = gridmc.first_bad(np.where(ok, e, 0.0), tol)
                         if bad is not None:
                             qr_ok = False
                             res.violation("%s/%s:%s" % (site, spin, name), dict(base, check="qr", via=via, spin=spin, what=name, point=bad),
-                                          dict(err=float(e[bad]), n_bad=int((np.where(ok, e, 0.0) > TOL_ALG).sum()), n_points=P,
+                                          dict(err=float(e[bad]), tol=tol, n_bad=int((~(np.where(ok, e, 0.0) <= tol)).sum()), n_points=P,
                                                walker=W_[bad], returned_factor=None if not have_f else f_[bad]))
-            if Ra is not None and Ra.size:
-                res.guard("qr_nontrivial_R", int((np.abs(np.triu(Ra, 1)).max(axis=(1, 2)) > 1e-3 * np.abs(np.einsum("wii->wi", Ra)).min(axis=1)).sum()) if na > 1 else int(P))
+            if Ra is not None and Ra.size:  # vacuity guard: walkers whose triangular factor is not just a diagonal rescaling
+                offd = np.abs(np.triu(Ra, 1)).max(axis=(1, 2)) if na > 1 else np.zeros(P)
+                res.guard("qr_nontrivial_R", int((offd > 1e-3 * np.abs(np.einsum("wii->wi", Ra)).min(axis=1)).sum()))
             if not qr_ok:  # the measurement identities below are consequences of the QR contract: one defect, one signature
                 res.guard("measurement_checks_skipped_after_qr_violation")
                 continue
@@ -281,7 +284,7 @@ def job_qr(cfg):
                 OW, EW, FW = measure(trial, p.wave_data, hds[ip], mode, Wa, Wb)
                 OQ, EQ, FQ = measure(trial, p.wave_data, hds[ip], mode, Qa, Qb)
                 ng, nk = int(good.sum()), int(ok.sum())
-                res.add(states=nk, transitions=6 * nk, evaluations=nk + 2 * ng, traces=6)
+                res.add(states=nk if ip != psets[0][0] else 0, transitions=6 * nk, evaluations=nk + 2 * ng, traces=6)
                 oscale = np.abs(OW[ok]).max() if nk else 1.0
                 e_o = np.abs(OW - OQ * fac) / np.maximum(np.abs(OW), 1e-3 * oscale)
                 e_o = np.where(np.isfinite(OW) & np.isfinite(OQ), e_o, np.inf)
@@ -533,7 +536,7 @@ def check_init_case(res, cfg, label, trial, wd, ket, n, na, nb, restricted, sd_r
             if na != nb and restricted:
                 res.guard("variational_energy_checked/restricted-open-shell")
             e = np.abs(El - E_var).max() / max(1.0, abs(E_var))
-            if not e <= 1e-9:
+            if not e <= tol_energy(kind, "none") / (2.0 if kind in trials.AUTO_KINDS else 1.0):  # one evaluation against the exact value
                 res.violation(site + ":energy-not-variational", dict(base, what="energy"),
                               dict(impl=El[0], ref=E_var, err=float(e), normalised_overlap=float(np.abs(O[0]) / knorm)))
     return "ok"
